@@ -820,6 +820,22 @@ func (e fixEvaluator) RotateMany(ctIn *rlwe.Ciphertext, ks []int, opOut map[int]
 	}
 }
 
+// LAZYSUB control: a lazy Montgomery product subtracted from q
+func subLazy(x, y, z []uint64, modulus, mredconstant uint64) {
+	for i := range x {
+		z[i] += modulus - ring.MRedLazy(x[i], y[i], modulus, mredconstant)
+	}
+}
+
+// LOOPCLOBBER control: the residue kept in buff.Coeffs[0] is overwritten by the first iteration
+func spreadResidue(r *ring.Ring, p0, buff, p1 ring.Poly, level int) {
+	r.SubRings[level].INTT(p0.Coeffs[level], buff.Coeffs[0])
+	for i, s := range r.SubRings[:level] {
+		s.NTT(buff.Coeffs[0], buff.Coeffs[i])
+		s.Sub(buff.Coeffs[i], p0.Coeffs[i], p1.Coeffs[i])
+	}
+}
+
 // INDEG control: the first two components of the input, whatever its degree
 func (e fixEvaluator) SumTwo(ctIn, opOut *rlwe.Ciphertext) {
 	e.r.Add(ctIn.Value[0], ctIn.Value[1], opOut.Value[0])
